@@ -16,7 +16,7 @@ ID = 'C15'
 LEVEL = 'fault_enumeration'
 EVAL_PROBE = 'crash-states'
 ENGINE = 'crash'
-BUDGET = {'quick': 1400, 'thorough': 20000}
+BUDGET = {'quick': 1200, 'thorough': 20000}
 WALL = {'quick': 90, 'thorough': 1800}
 RULE = ('scenarios: trash-restore (single / multi index; file, deep directory, symlink; same-volume and cross-volume destination so that copy '
         'and delete steps are crash points), trash-empty (with/without DAYS, several trash dirs, orphans), trash-rm (several matches); ALL '
